@@ -111,7 +111,9 @@ func runC15(o *opts) (*summary, error) {
 	thorough := o.tier == "thorough"
 	nset := 0
 	emit := func(role, s, class string) {
-		w.put(M{"fn": "parse", "role": role, "s": cps(s), "text": s, "out": parseOut(role, s)}, class, role+"|"+s)
+		first := parseOut(role, s)
+		// (the same text once more: what a parser answers is a function of the text, not of having seen it before)
+		w.put(M{"fn": "parse", "role": role, "s": cps(s), "text": s, "out": first, "again": parseOut(role, s)}, class, role+"|"+s)
 		// the same text through Set() on a zero value (every fourth text): judged like Parse
 		if nset++; nset%4 == 0 || class == "odd" || class == "ports-odd" {
 			w.put(M{"fn": "parse", "role": role, "s": cps(s), "text": s, "out": parseOutVia(role, s, setRole), "entry": "Set"}, class+"-set", role+"|set|"+s)
